@@ -417,8 +417,9 @@ impl Context {
 
 impl Fill for Context {
     fn fill_interleaved(&mut self, interleaved: &[i32]) -> Result<(), SourceError> {
-        if self.channels == 0 {
-            // `Context::new` cannot refuse; samples of zero channels cannot be counted.
+        if self.channels == 0 || self.bytes_per_sample == 0 {
+            // `Context::new` cannot refuse; samples of zero channels (or of zero
+            // bits) cannot be counted.
             return Err(SourceError::by_reason(SourceErrorReason::InvalidFormat));
         }
         if interleaved.is_empty() {
@@ -434,7 +435,8 @@ impl Fill for Context {
 
     #[inline]
     fn fill_le_bytes(&mut self, bytes: &[u8], bytes_per_sample: usize) -> Result<(), SourceError> {
-        if bytes_per_sample != self.bytes_per_sample || self.channels == 0 {
+        if bytes_per_sample != self.bytes_per_sample || self.channels == 0 || bytes_per_sample == 0
+        {
             // the bytes would be hashed and counted with a wrong sample width
             // (or cannot be counted at all).
             return Err(SourceError::by_reason(SourceErrorReason::InvalidFormat));
